@@ -691,6 +691,19 @@ def _check(case: dict) -> dict:
         # the well-formed message itself is not taken as sent: C02's subject, nothing to learn here
         return {'nontrivial': False, 'classes': classes + ['base-not-accepted']}
 
+    # 1b. the same bytes are first decoded for a session of the other AS width (one process serves many peers): what that
+    # decode leaves behind - a value cache keyed by bytes alone - must not make this session take the attribute as read
+    try:
+        _other_neighbor, other_neg = neighbor_for(dict(session, asn4=not session['asn4']))
+        for primer in (base_body, body):
+            try:
+                Message.unpack(2, memoryview(primer), other_neg)
+            except Exception:  # noqa: BLE001 - what the other session makes of the bytes is not this case's subject
+                pass
+        classes.append('primed-on-the-other-as-width')
+    except RuntimeError:
+        pass
+
     # 2. the corrupted UPDATE
     try:
         out = deliver(neighbor, neg, handler, ctx, body)
